@@ -1,6 +1,7 @@
 package main
 
 import (
+	"encoding/json"
 	"flag"
 	"fmt"
 	"math"
@@ -196,6 +197,34 @@ func vaccessors(args []string) error {
 			} else if !okU && err == nil {
 				bad("AsUint64", "an error (a value is outside uint64)", fmt.Sprint(got))
 			}
+		}
+		// the text form: AsStringCvt / Iter.StringCvt print integers in decimal and floats the way marshalling does
+		wantS := make([]string, k)
+		for j, v := range vals {
+			switch v.kind {
+			case 'l':
+				wantS[j] = strconv.FormatInt(wantI[j], 10)
+			case 'u':
+				wantS[j] = strconv.FormatUint(wantU[j], 10)
+			default:
+				jb, _ := json.Marshal(wantF[j])
+				wantS[j] = string(jb)
+			}
+		}
+		if a := get(); a != nil {
+			got, err := a.AsStringCvt()
+			if err != nil || fmt.Sprint(got) != fmt.Sprint(wantS) {
+				bad("AsStringCvt", fmt.Sprint(wantS), fmt.Sprintf("%v err=%v", got, err))
+			}
+		}
+		if a := get(); a != nil {
+			j := 0
+			a.ForEach(func(it simdjson.Iter) {
+				if s, err := it.StringCvt(); j < k && (err != nil || s != wantS[j]) {
+					bad("Iter.StringCvt", fmt.Sprintf("element %d = %s", j, wantS[j]), fmt.Sprintf("%s err=%v", s, err))
+				}
+				j++
+			})
 		}
 		// element by element through Iter.Float
 		if a := get(); a != nil {
